@@ -107,3 +107,44 @@ Qed.
 
 Example info_example : gstrf_info [[0; 7; 0]; [4; 0]; [0; 9; 5]] = 4 /\ gstrf_info [[9; 0]; [5; 0; 0; 7]; [4]] = 4 /\ gstrf_info [[0]; []; [0; 0]] = 0.
 Proof. vm_compute. auto. Qed.
+
+(* factor_snode keeps the first nonzero info of its columns; the columns are visited in ascending order and info = column+1,
+   so the nonzero entries increase along the list: the first one is the smallest, i.e. what a worker that met the columns one
+   by one would have kept *)
+Fixpoint nz_increasing (lo : Z) (l : list Z) : Prop :=
+  match l with
+  | [] => True
+  | x :: t => (x = 0 /\ nz_increasing lo t) \/ (lo < x /\ nz_increasing x t)
+  end.
+
+Lemma snode_fold_stable l : forall acc, acc <> 0 -> fold_left snode_step l acc = acc.
+Proof.
+  induction l as [|x t IH]; intros acc Ha; cbn [fold_left]; [reflexivity|].
+  unfold snode_step at 2. destruct (acc =? 0) eqn:E; [apply Z.eqb_eq in E; contradiction|].
+  rewrite andb_false_r. apply IH; exact Ha.
+Qed.
+
+Lemma thread_fold_lower l : forall lo acc, 0 < acc -> acc <= lo -> nz_increasing lo l -> fold_left upd_singular l acc = acc.
+Proof.
+  induction l as [|x t IH]; intros lo acc Hp Hl H; cbn [fold_left]; [reflexivity|].
+  cbn [nz_increasing] in H. destruct H as [[Hx H]|[Hx H]].
+  - subst x. unfold upd_singular at 2. cbn. apply (IH lo); assumption.
+  - unfold upd_singular at 2.
+    destruct (x =? 0) eqn:E0; [apply Z.eqb_eq in E0; lia|]. cbn [negb andb].
+    destruct (acc =? 0) eqn:E1; [apply Z.eqb_eq in E1; lia|]. cbn [orb].
+    destruct (x <? acc) eqn:E2; [apply Z.ltb_lt in E2; lia|].
+    apply (IH x); [exact Hp | lia | exact H].
+Qed.
+
+Theorem snode_info_is_thread_info l : nz_increasing 0 l -> snode_info l = thread_info l.
+Proof.
+  unfold snode_info, thread_info.
+  induction l as [|x t IH]; intros H; [reflexivity|].
+  cbn [fold_left]. cbn [nz_increasing] in H.
+  destruct H as [[Hx H]|[Hx H]].
+  - subst x. unfold snode_step at 2, upd_singular at 2. cbn. apply IH. exact H.
+  - unfold snode_step at 2, upd_singular at 2.
+    destruct (x =? 0) eqn:E0; [apply Z.eqb_eq in E0; lia|]. cbn.
+    rewrite (snode_fold_stable t x) by lia.
+    rewrite (thread_fold_lower t x x) by (try lia; exact H). reflexivity.
+Qed.
